@@ -8,12 +8,16 @@ mod interp;
 mod progcheck;
 mod props;
 mod subject;
+mod worker;
 
 use common::Tier;
 
 fn main() {
     common::install_quiet_panic_hook();
     let args: Vec<String> = std::env::args().collect();
+    if args.len() >= 3 && args[1] == "--worker" {
+        worker::worker_main(&args[2]);
+    }
     if args.len() < 3 {
         eprintln!("usage: gverif <PROPERTY> <quick|thorough>");
         std::process::exit(2);
@@ -32,6 +36,7 @@ fn main() {
         "C03" => props::c03::run(tier),
         "C04" => props::c04::run(tier),
         "C05" => props::c05::run(tier),
+        "C07" => props::c07::run(tier),
         "C08" => props::c08::run(tier),
         "C09" => props::c09::run(tier),
         "C10" => props::c10::run(tier),
